@@ -5,21 +5,26 @@ case = (max_retries, mode, jobs)
          its first attempt before any task proceeds: all attempt logs are deterministic),
          2 = ThreadPoolExecutor free-running (logs of the partitions after the first exhausted
          partition depend on the executor's cancellation race and are reported as a legality bit)
-  job  = (action, style, pre, post, parts)      -- the jobs run one after the other on ONE Context
+  job  = (action, style, pre_ops, post_ops, parts, reuse)   -- the jobs run one after the other on ONE Context
+         the dataset is  parallelize(parts) . pre_ops . mapPartitionsWithIndex(faulty) . post_ops ; ops come from
+         OPS (map / filter / flatMap / mapPartitions / glom / persist / cache / mapValues / sample ...);
+         reuse = 1: the job runs on the dataset OBJECT of the previous job (same injected function, same
+         persisted datasets) extended by post_ops -- parts/pre_ops/style are then those of the previous job
   part = (data, plan, nest)
-         plan = outcomes of attempts 1,2,...: None (success) or (exception_class, position);
-                attempts beyond the plan succeed
+         plan = outcomes of calls 1,2,... of the injected function on that partition: None (success) or
+                (exception_class, position); calls beyond the plan succeed
          nest = operations the task performs on its own context at the start of every attempt:
-                (kind, caught) with kind 0 = create a dataset, 1 = run an action
+                (kind, caught); kind indexes NEST_OPS: < 40 creates a dataset, >= 40 runs an action
 
-The injected stage is `mapPartitionsWithIndex(faulty)`; `faulty` keeps the attempt log
-(attempt number, outcome of every nested operation, elements pulled from upstream, how the attempt
-ended).  The implementation result is, per job, (result, logs): result = (0, value) or
-(1, exception_class, exception_args); logs = one list of attempt records per partition."""
+`faulty` keeps the attempt log (call number, outcome of every nested operation, elements pulled from
+upstream, how the attempt ended).  The implementation result is, per job, (result, logs): result =
+(0, value) or (1, exception_class, exception_args); logs = one list of attempt records per partition."""
 import glob
 import itertools
 import json
 import os
+import shutil
+import tempfile
 import threading
 from concurrent.futures import ThreadPoolExecutor
 
@@ -28,28 +33,37 @@ from common.coqlit import Err, uncanon
 from pysparkling.exceptions import ContextIsLockedException
 
 ID = 'C04'
-KERNELS = ['Gen/Retry.v: run_task_kernel', 'Gen/Retry.v: runjob_lock_kernel', 'Gen/Retry.v: rdd_init_kernel']
+KERNELS = ['Gen/Retry.v: run_task_kernel', 'Gen/Retry.v: runjob_lock_kernel', 'Gen/Retry.v: rdd_init_kernel',
+           'Gen/Retry.v: tolocaliterator_kernel']
 SHARD = 150
 RULE = ('cases (max_retries, executor, job sequence on one context); every job has 1-4 partitions, each with data, '
-        'a fault plan (exception class and position before/mid/after for every failing attempt, 0..max_retries+1 of them) '
-        'and nested operations (create a dataset / run an action from inside the task, caught or propagating); '
-        'exhaustive over the number of failing attempts per partition for <=3 partitions and max_retries 1..4 on all '
-        'three executors, each followed by a fresh job; lazy actions take(n)/first/isEmpty; random job sequences of 1-3 '
-        'jobs (max_retries 1..6); 9 whole-partition actions, generator and eager task functions; non-trivial = some attempt fails or some nested operation is attempted; distinct by canonical JSON')
+        'a fault plan (exception class and position before/mid/after for every failing call, 0..max_retries+1 of them) '
+        'and nested operations (every way of creating a dataset / running an action from inside the task, caught or '
+        'propagating); lineage = ops below and above the injected stage (map filter flatMap mapPartitions glom persist '
+        'cache mapValues sample); 50 job-triggering public methods (every caller of runJob/collect/toLocalIterator in '
+        'rdd.py that fits integer data) classified as whole-partition under the lock / whole-partition after the lock '
+        '(toLocalIterator family) / lazy (take first isEmpty); follow-up jobs fresh or on the same dataset object; '
+        'exhaustive over the number of failing attempts per partition for <=3 partitions and max_retries 1..4 on three '
+        'executors; non-trivial = some attempt fails or some nested operation is attempted; distinct by canonical JSON')
 ASSUMPTIONS = [
-    'max_retries >= 1 (generated: 1..6), catch_exceptions=False, retry_wait=0 (with max_retries <= 0 or catch_exceptions=True _run_task recurses without bound on a permanent failure)',
-    'actions that evaluate whole partitions: collect count sum reduce fold aggregate foreach foreachPartition; the lazy '
-    'take/first/isEmpty are modelled separately (no retry for a generator task function); toLocalIterator is not covered',
+    'max_retries >= 1 (generated: 1..6), catch_exceptions=False, retry_wait=0 (with max_retries <= 0 or '
+    'catch_exceptions=True _run_task recurses without bound on a permanent failure)',
+    'lazy actions take/first/isEmpty: only length-preserving ops above the injected stage (no filter/flatMap)',
     'pooled executor in the model correspondence = concurrent.futures.ThreadPoolExecutor; worker processes '
     '(multiprocessing.Pool + cloudpickle) are exercised by the oracle only (extra_checks), with at most one exhausting '
     'partition per job (with several, Pool.map reports whichever fails first in time)',
-    'on the thread pool, nested operations are only generated in partitions up to the first exhausted one: tasks of '
-    'later partitions may still be running after the failed job has released its lock (executor race, not modelled)',
+    'on the thread pool, nested operations are only generated in partitions up to the first exhausted one, and never '
+    'for the toLocalIterator family: tasks may still run (or run concurrently) while the lock is free (executor race)',
+    'a job on the dataset object of an earlier job (reuse) is generated locally always, on the free-running pool only '
+    'after jobs without an exhausting partition, never on the barrier pool (cached partitions do not reach the barrier)',
     'free-running thread pool: attempt logs of partitions after the first exhausted one are only checked to be '
     'empty (cancelled) or complete',
+    'saveAsTextFile only on the local executor (on a pool, concurrent tasks race in Local.dump: os.makedirs after an '
+    'exists() test raises FileExistsError, which _run_task then retries -- a save defect, not a retry defect)',
+    'file-, process- and text-based dataset constructors (textFile, pipe, ...) are not among the nested operations',
 ]
-TRUSTED = ['translator/kernels/c04.py (run_task_kernel, runjob_lock_kernel, rdd_init_kernel)',
-           'the injected task function of py/c04.py (keeps the attempt log; a Gallina twin is in Model/Retry.v)']
+TRUSTED = ['translator/kernels/c04.py (run_task_kernel, runjob_lock_kernel, rdd_init_kernel, tolocaliterator_kernel)',
+           'the injected task function and the op/action tables of py/c04.py (Gallina twins in Model/Retry.v)']
 
 
 class TaskFault(Exception):
@@ -58,15 +72,207 @@ class TaskFault(Exception):
 
 EXC = [ValueError, KeyError, TaskFault]
 LOCKED = 3
-FUNCS = [None, lambda x: x + 1, lambda x: x * 2, lambda x: -x]
-PYF = [lambda x: x, lambda x: x + 1, lambda x: x * 2, lambda x: -x]
-N_ACTIONS = 9            # actions 0..8 evaluate whole partitions
-ACTION_NAMES = ['collect', 'count', 'sum', 'reduce', 'fold', 'aggregate', 'foreach', 'foreachPartition', 'reduce-max',
-                'take(0)', 'take(1)', 'take(2)', 'take(3)', 'take(4)', 'take(5)', 'first', 'isEmpty']
-LAZY = range(9, 17)      # the lazily evaluated actions: take(n) for n = action - 9, first, isEmpty
-NEEDS_DATA = (3, 8)
 STOP = 5
 SUSPENDED = -2
+
+# ------------------------------------------------------------------ lineage ops (twin: Model/Retry.v op_apply)
+OPS = {
+    1: ('map+1', lambda r: r.map(lambda x: x + 1), lambda xs: [x + 1 for x in xs]),
+    2: ('map*2', lambda r: r.map(lambda x: x * 2), lambda xs: [x * 2 for x in xs]),
+    3: ('map-neg', lambda r: r.map(lambda x: -x), lambda xs: [-x for x in xs]),
+    4: ('filter-even', lambda r: r.filter(lambda x: x % 2 == 0), lambda xs: [x for x in xs if x % 2 == 0]),
+    5: ('flatMap-dup', lambda r: r.flatMap(lambda x: [x, x + 10]), lambda xs: [y for x in xs for y in (x, x + 10)]),
+    6: ('mapPartitions-list', lambda r: r.mapPartitions(lambda it: list(it)), list),  # pylint: disable=unnecessary-lambda
+    7: ('glom-flatten', lambda r: r.glom().flatMap(lambda l: l), list),
+    8: ('persist', lambda r: r.persist(), list),
+    9: ('cache', lambda r: r.cache(), list),
+    10: ('keyBy-mapValues-values', lambda r: r.keyBy(lambda x: x).mapValues(lambda v: v + 1).values(),
+         lambda xs: [x + 1 for x in xs]),
+    11: ('sample-all', lambda r: r.sample(False, 1.0, 7), list),
+    12: ('mapPartitionsWithIndex-id', lambda r: r.mapPartitionsWithIndex(lambda i, it: it), list),
+}
+OP_CODES = sorted(OPS)
+LENGTH_PRESERVING = [c for c in OP_CODES if c not in (4, 5)]
+PERSIST_OPS = (8, 9)
+
+
+def apply_ops_plain(ops, xs):
+    for c in ops:
+        xs = OPS[c][2](xs)
+    return list(xs)
+
+
+# ------------------------------------------------------------------ result kinds (twin: Model/Retry.v kind_result)
+def _mod3(xs, f):
+    out = []
+    for k in (0, 1, 2):
+        g = [x for x in xs if x % 3 == k]
+        if g:
+            out.append((k, f(g)))
+    return out
+
+
+KIND = {
+    'LIST': lambda ps: [x for p in ps for x in p],
+    'COUNT': lambda ps: sum(len(p) for p in ps),
+    'SUM': lambda ps: sum(x for p in ps for x in p),
+    'PAIR': lambda ps: (sum(x for p in ps for x in p), sum(len(p) for p in ps)),
+    'NONE': lambda ps: None,
+    'MAX': lambda ps: max(x for p in ps for x in p),
+    'MIN': lambda ps: min(x for p in ps for x in p),
+    'SORTED': lambda ps: sorted(x for p in ps for x in p),
+    'SORTED_DISTINCT': lambda ps: sorted({x for p in ps for x in p}),
+    'COUNTS': lambda ps: [(v, sum(1 for p in ps for x in p if x == v)) for v in sorted({x for p in ps for x in p})],
+    'DISTINCT_COUNT': lambda ps: len({x for p in ps for x in p}),
+    'TOP2': lambda ps: sorted((x for p in ps for x in p), reverse=True)[:2],
+    'BOTTOM2': lambda ps: sorted(x for p in ps for x in p)[:2],
+    'LOOKUP1': lambda ps: [x for p in ps for x in p if x % 3 == 1],
+    'MOD3_SUMS': lambda ps: _mod3([x for p in ps for x in p], sum),
+    'MOD3_COUNTS': lambda ps: _mod3([x for p in ps for x in p], len),
+    'MOD3_GROUPS': lambda ps: _mod3([x for p in ps for x in p], list),
+    'PARTS': lambda ps: [list(p) for p in ps],
+    'HIST': lambda ps: [sum(1 for p in ps for x in p if x < 0), sum(1 for p in ps for x in p if x >= 0)],
+    'INDEXED': lambda ps: [(x, i) for i, x in enumerate(x for p in ps for x in p)],
+}
+KIND_NAMES = list(KIND)
+NEEDS_DATA_KINDS = ('MAX', 'MIN')
+
+ADD = lambda a, b: a + b  # noqa: E731  pylint: disable=unnecessary-lambda-assignment
+K3 = lambda x: x % 3      # noqa: E731  pylint: disable=unnecessary-lambda-assignment
+
+
+def _save_text(rdd):
+    d = tempfile.mkdtemp(prefix='c04_save_', dir=os.environ.get('C04_TMP'))
+    try:
+        out = os.path.join(d, 'out')
+        rdd.saveAsTextFile(out)
+        lines = []
+        # a single-partition dataset is written as one file, otherwise a directory of part files
+        files = [out] if os.path.isfile(out) else [os.path.join(out, n) for n in sorted(os.listdir(out)) if n.startswith('part-')]
+        for name in files:
+            with open(name) as f:
+                lines.extend(int(l) for l in f.read().splitlines() if l)
+        return sorted(lines)
+    finally:
+        shutil.rmtree(d, ignore_errors=True)
+
+
+def _strip_tail(res, tail):
+    return res[:-len(tail)] if res[-len(tail):] == tail else ('unexpected-tail', res)
+
+
+# class 0: whole partitions, tasks run while runJob holds the lock; 1: whole partitions, tasks run when the
+# generator returned by toLocalIterator() is consumed (after runJob returned); 2: lazy (take / first / isEmpty)
+ACTIONS = [
+    ('collect', 0, 'LIST', lambda r, sc: r.collect()),
+    ('count', 0, 'COUNT', lambda r, sc: r.count()),
+    ('sum', 0, 'SUM', lambda r, sc: r.sum()),
+    ('reduce', 0, 'SUM', lambda r, sc: r.reduce(ADD)),
+    ('fold', 0, 'SUM', lambda r, sc: r.fold(0, ADD)),
+    ('aggregate', 0, 'PAIR', lambda r, sc: r.aggregate((0, 0), lambda acc, x: (acc[0] + x, acc[1] + 1),
+                                                       lambda a, b: (a[0] + b[0], a[1] + b[1]))),
+    ('foreach', 0, 'NONE', lambda r, sc: r.foreach([].append)),
+    ('foreachPartition', 0, 'NONE', lambda r, sc: r.foreachPartition([].extend)),
+    ('reduce-max', 0, 'MAX', lambda r, sc: r.reduce(max)),
+    ('take(0)', 2, None, lambda r, sc: r.take(0)),
+    ('take(1)', 2, None, lambda r, sc: r.take(1)),
+    ('take(2)', 2, None, lambda r, sc: r.take(2)),
+    ('take(3)', 2, None, lambda r, sc: r.take(3)),
+    ('take(4)', 2, None, lambda r, sc: r.take(4)),
+    ('take(5)', 2, None, lambda r, sc: r.take(5)),
+    ('first', 2, None, lambda r, sc: r.first()),
+    ('isEmpty', 2, None, lambda r, sc: r.isEmpty()),
+    ('treeAggregate', 0, 'SUM', lambda r, sc: r.treeAggregate(0, ADD, ADD)),
+    ('treeReduce', 0, 'SUM', lambda r, sc: r.treeReduce(ADD)),
+    ('countApprox', 0, 'COUNT', lambda r, sc: r.countApprox()),
+    ('sumApprox', 0, 'SUM', lambda r, sc: r.sumApprox()),
+    ('collectAsMap', 0, 'SORTED_DISTINCT', lambda r, sc: sorted(r.keyBy(lambda x: x).collectAsMap())),
+    ('countByValue', 0, 'COUNTS', lambda r, sc: sorted(r.countByValue().items())),
+    ('countByKey', 0, 'MOD3_COUNTS', lambda r, sc: sorted(r.keyBy(K3).countByKey().items())),
+    ('max', 0, 'MAX', lambda r, sc: r.max()),
+    ('min', 0, 'MIN', lambda r, sc: r.min()),
+    ('stats.count', 0, 'COUNT', lambda r, sc: r.stats().count()),
+    ('sortBy', 0, 'SORTED', lambda r, sc: r.sortBy(lambda x: x).collect()),
+    ('top(2)', 0, 'TOP2', lambda r, sc: r.top(2)),
+    ('takeOrdered(2)', 0, 'BOTTOM2', lambda r, sc: r.takeOrdered(2)),
+    ('lookup', 0, 'LOOKUP1', lambda r, sc: r.keyBy(K3).lookup(1)),
+    ('aggregateByKey', 0, 'MOD3_SUMS', lambda r, sc: sorted(r.keyBy(K3).aggregateByKey(0, ADD, ADD).collect())),
+    ('reduceByKey', 1, 'MOD3_SUMS', lambda r, sc: sorted(r.keyBy(K3).reduceByKey(ADD).collect())),
+    ('union', 0, 'LIST', lambda r, sc: _strip_tail(r.union(sc.parallelize([100, 200], 1)).collect(), [100, 200])),
+    ('coalesce', 0, 'LIST', lambda r, sc: r.coalesce(1).collect()),
+    ('subtract', 0, 'LIST', lambda r, sc: r.subtract(sc.parallelize([1000], 1)).collect()),
+    ('saveAsTextFile', 0, 'SORTED', lambda r, sc: _save_text(r)),
+    ('glom.collect', 0, 'PARTS', lambda r, sc: r.glom().collect()),
+    ('sortByKey', 0, 'SORTED', lambda r, sc: sorted(v for _k, v in r.keyBy(K3).sortByKey().collect())),
+    ('toLocalIterator', 1, 'LIST', lambda r, sc: list(r.toLocalIterator())),
+    ('distinct', 1, 'SORTED_DISTINCT', lambda r, sc: sorted(r.distinct().collect())),
+    ('zipWithIndex', 1, 'INDEXED', lambda r, sc: r.zipWithIndex().collect()),
+    ('groupByKey', 1, 'MOD3_GROUPS', lambda r, sc: sorted((k, list(v)) for k, v in r.keyBy(K3).groupByKey().collect())),
+    ('coalesce-shuffle', 1, 'LIST', lambda r, sc: r.coalesce(2, shuffle=True).collect()),
+    ('repartition', 1, 'LIST', lambda r, sc: r.repartition(2).collect()),
+    ('countApproxDistinct', 1, 'DISTINCT_COUNT', lambda r, sc: r.countApproxDistinct()),
+    ('intersection', 1, 'SORTED_DISTINCT', lambda r, sc: sorted(r.intersection(sc.parallelize(range(-60, 61), 2)).collect())),
+    ('cartesian', 1, 'LIST', lambda r, sc: [a for a, b in r.cartesian(sc.parallelize([0, 1], 1)).collect() if b == 0]),
+    ('zip', 1, 'INDEXED', lambda r, sc: r.zip(sc.parallelize(range(200), 2)).collect()),
+    ('partitionBy', 1, 'SORTED', lambda r, sc: sorted(v for _k, v in r.keyBy(K3).partitionBy(2).collect())),
+    ('randomSplit', 1, 'LIST', lambda r, sc: r.randomSplit([1.0], seed=3)[0].collect()),
+    ('histogram', 1, 'HIST', lambda r, sc: r.histogram([-1000, 0, 1000])[1][:2]),
+    ('join', 1, 'SORTED', lambda r, sc: sorted(v for _k, (v, _w) in
+                                               r.keyBy(K3).join(sc.parallelize([(0, 0), (1, 0), (2, 0)], 2)).collect())),
+]
+ACTION_NAMES = [a[0] for a in ACTIONS]
+N_ACT = len(ACTIONS)
+LAZY = [i for i, a in enumerate(ACTIONS) if a[1] == 2]
+UNLOCKED = [i for i, a in enumerate(ACTIONS) if a[1] == 1]
+STRICT = [i for i, a in enumerate(ACTIONS) if a[1] != 2]
+LOCKED_STRICT = [i for i, a in enumerate(ACTIONS) if a[1] == 0]
+
+# ------------------------------------------------------------------ nested operations (twin: code < 40 NCreate, else NAction)
+NEST_OPS = {
+    0: ('parallelize', lambda sc, o, kv: sc.parallelize([7, 8, 9], 2)),
+    1: ('map', lambda sc, o, kv: o.map(str)),
+    2: ('filter', lambda sc, o, kv: o.filter(bool)),
+    3: ('flatMap', lambda sc, o, kv: o.flatMap(lambda x: [x])),
+    4: ('mapPartitions', lambda sc, o, kv: o.mapPartitions(list)),
+    5: ('mapPartitionsWithIndex', lambda sc, o, kv: o.mapPartitionsWithIndex(lambda i, it: it)),
+    6: ('glom', lambda sc, o, kv: o.glom()),
+    7: ('mapValues', lambda sc, o, kv: kv.mapValues(str)),
+    8: ('keys', lambda sc, o, kv: kv.keys()),
+    9: ('values', lambda sc, o, kv: kv.values()),
+    10: ('keyBy', lambda sc, o, kv: o.keyBy(str)),
+    11: ('persist', lambda sc, o, kv: o.persist()),
+    12: ('cache', lambda sc, o, kv: o.cache()),
+    13: ('sample', lambda sc, o, kv: o.sample(False, 0.5, 1)),
+    14: ('_parallelize_partitions', lambda sc, o, kv: sc._parallelize_partitions([[1], [2]])),  # pylint: disable=protected-access
+    15: ('union', lambda sc, o, kv: o.union(o)),
+    16: ('zipWithIndex', lambda sc, o, kv: o.zipWithIndex()),
+    17: ('distinct', lambda sc, o, kv: o.distinct()),
+    18: ('sortBy', lambda sc, o, kv: o.sortBy(lambda x: x)),
+    19: ('coalesce', lambda sc, o, kv: o.coalesce(1)),
+    20: ('cartesian', lambda sc, o, kv: o.cartesian(o)),
+    21: ('groupByKey', lambda sc, o, kv: kv.groupByKey()),
+    22: ('flatMapValues', lambda sc, o, kv: kv.flatMapValues(lambda v: [v])),
+    23: ('sampleByKey', lambda sc, o, kv: kv.sampleByKey(False, {1: 0.5, 3: 0.5}, 1)),
+    24: ('Context.union', lambda sc, o, kv: sc.union([o, o])),
+    25: ('repartition', lambda sc, o, kv: o.repartition(2)),
+    40: ('count', lambda sc, o, kv: o.count()),
+    41: ('collect', lambda sc, o, kv: o.collect()),
+    42: ('take', lambda sc, o, kv: o.take(1)),
+    43: ('first', lambda sc, o, kv: o.first()),
+    44: ('sum', lambda sc, o, kv: o.sum()),
+    45: ('isEmpty', lambda sc, o, kv: o.isEmpty()),
+    46: ('toLocalIterator', lambda sc, o, kv: list(o.toLocalIterator())),
+    47: ('reduce', lambda sc, o, kv: o.reduce(ADD)),
+    48: ('foreach', lambda sc, o, kv: o.foreach(str)),
+    49: ('max', lambda sc, o, kv: o.max()),
+    50: ('countByValue', lambda sc, o, kv: o.countByValue()),
+    51: ('aggregate', lambda sc, o, kv: o.aggregate(0, ADD, ADD)),
+    52: ('top', lambda sc, o, kv: o.top(1)),
+    53: ('lookup', lambda sc, o, kv: kv.lookup(1)),
+    54: ('collectAsMap', lambda sc, o, kv: kv.collectAsMap()),
+    55: ('foreachPartition', lambda sc, o, kv: o.foreachPartition(list)),
+}
+NEST_CODES = sorted(NEST_OPS)
 
 
 def exc_code(e):
@@ -79,99 +285,51 @@ def exc_code(e):
     return type(e).__name__
 
 
-def do_action(action, rdd):
-    if action == 0:
-        return rdd.collect()
-    if action == 1:
-        return rdd.count()
-    if action == 2:
-        return rdd.sum()
-    if action == 3:
-        return rdd.reduce(lambda a, b: a + b)
-    if action == 4:
-        return rdd.fold(0, lambda a, b: a + b)
-    if action == 5:
-        return rdd.aggregate((0, 0), lambda acc, x: (acc[0] + x, acc[1] + 1), lambda a, b: (a[0] + b[0], a[1] + b[1]))
-    if action == 6:
-        sink = []
-        return rdd.foreach(sink.append)
-    if action == 7:
-        sink = []
-        return rdd.foreachPartition(sink.extend)
-    if action == 8:
-        return rdd.reduce(max)
-    if 9 <= action <= 14:
-        return rdd.take(action - 9)
-    if action == 15:
-        return rdd.first()
-    if action == 16:
-        return rdd.isEmpty()
-    raise ValueError(action)
+# ------------------------------------------------------------------ plain-list reference (for the oracle)
+
+def plain_parts(job_ctx):
+    """Fault-free output of every partition: pre ops, (injected stage = identity), post ops."""
+    return [apply_ops_plain(job_ctx['post'], apply_ops_plain(job_ctx['pre'], p[0])) for p in job_ctx['parts']]
 
 
-def plain_result(job):
-    """The fault-free result, computed on plain lists."""
-    action, _style, pre, post, parts = job
-    ps = [[PYF[post](PYF[pre](x)) for x in p[0]] for p in parts]
+def plain_result(job_ctx, action):
+    ps = plain_parts(job_ctx)
+    name, cls, knd, _f = ACTIONS[action]
     flat = [x for p in ps for x in p]
-    if action == 0:
-        return flat
-    if action == 1:
-        return len(flat)
-    if action in (2, 3, 4):
-        return sum(flat)
-    if action == 5:
-        return (sum(flat), len(flat))
-    if action in (6, 7):
-        return None
-    if action == 8:
-        return max(flat)
-    if 9 <= action <= 14:
-        return flat[:action - 9]
-    if action == 15:
+    if cls != 2:
+        return KIND[knd](ps)
+    if name.startswith('take'):
+        return flat[:int(name[5])]
+    if name == 'first':
         return flat[0] if flat else Err('StopIteration')
     return not flat
 
 
-def n_failing(maxr, part):
-    """Number of leading failing attempts of a partition (a propagating nested refusal fails every attempt)."""
-    _data, plan, nest = part
-    if any(not caught for _k, caught in nest):
-        return maxr + 1
-    n = 0
-    for f in plan:
-        if f is None:
-            break
-        n += 1
-    return n
+# ------------------------------------------------------------------ running a case on the implementation
 
+class Dataset:
+    """The dataset object of a job: kept so that a later job can run on it again."""
 
-def first_exhausted(maxr, parts):
-    for i, p in enumerate(parts):
-        if n_failing(maxr, p) >= maxr:
-            return i
-    return None
+    def __init__(self, sc, maxr, mode, jidx, job):
+        _action, style, pre, post, parts, _reuse = job
+        self.sc, self.maxr, self.mode, self.jidx = sc, maxr, mode, jidx
+        self.style, self.pre, self.post, self.parts = style, list(pre), list(post), parts
+        self.log = [[] for _ in parts]
+        self.base = [0 for _ in parts]       # log length at the start of the current job
+        self.barrier = None
+        self.other = self.otherkv = self.rdd = None
 
-
-def run_job(sc, maxr, mode, jidx, job):
-    action, style, pre, post, parts = job
-    n = len(parts)
-    log = [[] for _ in parts]
-    barrier = threading.Barrier(n) if mode == 1 and action not in LAZY else None
-    holder = {}
-
-    def body(idx, it):
+    def body(self, idx, it):
+        log, parts = self.log, self.parts
         _data, plan, nest = parts[idx]
         a = len(log[idx]) + 1
+        first_in_job = len(log[idx]) == self.base[idx]
         rec = [a, [], [], None]
         log[idx].append(rec)
         try:
             for nkind, caught in nest:
                 try:
-                    if nkind == 0:
-                        sc.parallelize([7, 8, 9], 2)
-                    else:
-                        holder['other'].count()
+                    NEST_OPS[nkind][1](self.sc, self.other, self.otherkv)
                     rec[1].append(1)
                 except ContextIsLockedException:
                     rec[1].append(0)
@@ -179,8 +337,9 @@ def run_job(sc, maxr, mode, jidx, job):
                         rec[3] = LOCKED
                         raise
         finally:
-            if barrier is not None and a == 1:
-                barrier.wait(timeout=600)
+            # (tasks that run in the driver thread -- the local path -- must not wait for each other)
+            if self.barrier is not None and first_in_job and threading.current_thread() is not threading.main_thread():
+                self.barrier.wait(timeout=600)
         it = iter(it)
         f = plan[a - 1] if a - 1 < len(plan) else None
         if f is None:
@@ -190,38 +349,61 @@ def run_job(sc, maxr, mode, jidx, job):
             rec[3] = -1
             return
         exc, pos = f
-        size = len(parts[idx][0])
+        size = len(apply_ops_plain(self.pre, parts[idx][0]))
         k = 0 if pos == 0 else size // 2 if pos == 1 else size
         for _ in range(k):
             x = next(it)
             rec[2].append(x)
             yield x
         rec[3] = exc
-        raise EXC[exc](jidx, idx, a)
+        raise EXC[exc](self.jidx, idx, a)
 
-    def eager(idx, it):
-        return list(body(idx, it))
+    def eager(self, idx, it):
+        return list(self.body(idx, it))
 
+    def build(self):
+        sc = self.sc
+        self.other = sc.parallelize([1, 2, 3], 2)
+        self.otherkv = sc.parallelize([(1, 2), (3, 4)], 2)
+        rdd = sc._parallelize_partitions([list(p[0]) for p in self.parts])  # pylint: disable=protected-access
+        for c in self.pre:
+            rdd = OPS[c][1](rdd)
+        rdd = rdd.mapPartitionsWithIndex(self.eager if self.style else self.body)
+        for c in self.post:
+            rdd = OPS[c][1](rdd)
+        self.rdd = rdd
+
+
+def run_job(sc, maxr, mode, jidx, job, prev):
+    """Returns (result, new log records per partition, dataset)."""
+    action, _style, _pre, post, parts, reuse = job
+    ds = prev if reuse else Dataset(sc, maxr, mode, jidx, job)
+    if reuse and (ds is None or ds.rdd is None):
+        return (1, 'no-dataset', ()), [], ds
+    ds.base = [len(l) for l in ds.log]
+    ds.barrier = threading.Barrier(len(ds.parts)) if mode == 1 and ACTIONS[action][1] != 2 and not reuse else None
     try:
-        holder['other'] = sc._parallelize_partitions([[1, 2], [3]])  # pylint: disable=protected-access
-        rdd = sc._parallelize_partitions([list(p[0]) for p in parts])  # pylint: disable=protected-access
-        if pre:
-            rdd = rdd.map(FUNCS[pre])
-        rdd = rdd.mapPartitionsWithIndex(eager if style else body)
-        if post:
-            rdd = rdd.map(FUNCS[post])
-        res = (0, do_action(action, rdd))
+        if reuse:
+            rdd = ds.rdd
+            for c in post:
+                rdd = OPS[c][1](rdd)
+            ds.rdd = rdd
+            ds.post = ds.post + list(post)
+        else:
+            ds.build()
+        res = (0, ACTIONS[action][3](ds.rdd, sc))
     except Exception as e:  # pylint: disable=broad-except
-        args = e.args if all(isinstance(x, int) for x in e.args) else (repr(e.args),)
+        args = e.args if all(isinstance(x, int) and not isinstance(x, bool) for x in e.args) else (repr(e.args),)
         res = (1, exc_code(e), tuple(args))
-    return res, log
+    return res, ds
 
 
-def legal_log(maxr, part, recs):
-    """Structural legality of one partition's attempt log (used for the racy partitions of mode 2)."""
+def legal_log(maxr, recs):
+    """Structural legality of one partition's new attempt records (the racy partitions of mode 2)."""
     if not recs:
         return True
-    if [r[0] for r in recs] != list(range(1, len(recs) + 1)) or len(recs) > maxr:
+    nums = [r[0] for r in recs]
+    if nums != list(range(nums[0], nums[0] + len(recs))) or len(recs) > maxr:
         return False
     return recs[-1][3] == -1 or len(recs) == maxr
 
@@ -231,20 +413,43 @@ def impl(case):
     pool = ThreadPoolExecutor(8) if mode else None
     sc = pysparkling.Context(pool=pool, max_retries=maxr) if pool else pysparkling.Context(max_retries=maxr)
     raw = []
+    prev = None
     try:
         for jidx, job in enumerate(jobs):
-            raw.append(run_job(sc, maxr, mode, jidx, job))
+            out = run_job(sc, maxr, mode, jidx, job, prev)
+            if len(out) == 3:       # reuse without a dataset
+                raw.append((out[0], None, None))
+                continue
+            res, ds = out
+            prev = ds
+            raw.append((res, ds, (list(ds.base), None)))
+            # the log is read after the pool has drained; remember where this job's records end
+            if not mode:
+                raw[-1] = (res, ds, (list(ds.base), [len(l) for l in ds.log]))
     finally:
         if pool:
             pool.shutdown(wait=True)
+    # per job: the records appended during that job (pooled: up to the start of the next job on the same dataset)
     out = []
-    for job, (res, log) in zip(jobs, raw):
-        parts = job[4]
-        fe = first_exhausted(maxr, parts)
+    for k, (res, ds, span) in enumerate(raw):
+        if ds is None:
+            out.append((res, []))
+            continue
+        base, end = span
+        if end is None:
+            nxt = [r for r in raw[k + 1:] if r[1] is ds]
+            end = nxt[0][2][0] if nxt else [len(l) for l in ds.log]
+        new = [ds.log[i][base[i]:end[i]] for i in range(len(ds.parts))]
+        lazy = ACTIONS[jobs[k][0]][1] == 2
+        fe = None
+        for i, recs in enumerate(new):
+            if recs and recs[-1][3] not in (-1, None):
+                fe = i
+                break
         logs = []
-        for i, recs in enumerate(log):
-            if mode == 2 and fe is not None and i > fe and job[0] not in LAZY:
-                logs.append(1 if legal_log(maxr, parts[i], recs) else 0)
+        for i, recs in enumerate(new):
+            if mode == 2 and fe is not None and i > fe and not lazy:
+                logs.append(1 if legal_log(maxr, recs) else 0)
             else:
                 logs.append([(r[0], list(r[1]), list(r[2]), SUSPENDED if r[3] is None else r[3]) for r in recs])
         out.append((res, logs))
@@ -253,32 +458,143 @@ def impl(case):
 
 # ------------------------------------------------------------------ oracle (implementation only)
 
+def resolve(jobs):
+    """For every job: the dataset it runs on (origin index, pre, post, parts) -- a reuse job extends the post
+    ops of the previous job's dataset."""
+    out = []
+    cur = None
+    for jidx, (action, style, pre, post, parts, reuse) in enumerate(jobs):
+        if reuse and cur is not None:
+            cur = dict(cur, post=cur['post'] + list(post), fresh=False)
+        else:
+            cur = {'origin': jidx, 'style': style, 'pre': list(pre), 'post': list(post), 'parts': parts, 'fresh': True}
+        out.append(cur)
+    return out
+
+
+def n_failing(maxr, part, calls=0):
+    """Number of leading failing attempts of a partition whose injected function was already called `calls`
+    times (a propagating nested refusal fails every attempt)."""
+    _data, plan, nest = part
+    if any(not caught for _k, caught in nest):
+        return maxr + 1
+    n = 0
+    for f in plan[calls:]:
+        if f is None:
+            break
+        n += 1
+    return n
+
+
+def first_exhausted(maxr, parts, calls=None, held=True):
+    for i, p in enumerate(parts):
+        c = calls[i] if calls else 0
+        q = p if held else (p[0], p[1], [])
+        if n_failing(maxr, q, c) >= maxr:
+            return i
+    return None
+
+
 def oracle(case, result):
     maxr, mode, jobs = case
     if not isinstance(result, list) or len(result) != len(jobs):
         return ('harness:result-shape', repr(result)[:300])
-    for jidx, (job, (res, logs)) in enumerate(zip(jobs, result)):
-        o = oracle_job(maxr, mode, jidx, job, res, logs)
+    ctxs = resolve(jobs)
+    calls = {}
+    for jidx, (job, ctx, (res, logs)) in enumerate(zip(jobs, ctxs, result)):
+        c = calls.setdefault(ctx['origin'], [0] * len(ctx['parts']))
+        o = oracle_job(maxr, mode, job[0], ctx, list(c), res, logs)
         if o is not None:
             sig, msg = o
-            if jidx > 0:
+            if jidx > 0 and not sig.startswith('toLocalIterator:'):
                 sig = 'follow-up:' + sig
             return (sig, f'job {jidx}: {msg}')
+        for i, recs in enumerate(logs):
+            if isinstance(recs, list):
+                c[i] += len(recs)
     return None
 
 
-def oracle_lazy(maxr, jidx, job, res, logs):
-    """take / first / isEmpty: they return the plain result or surface an error; a generator task function
-    is never retried (its first error reaches the caller directly)."""
-    action, style, _pre, _post, parts = job
-    name = ACTION_NAMES[action]
+def oracle_job(maxr, mode, action, ctx, calls, res, logs):
+    name, cls, _knd, _f = ACTIONS[action]
+    parts = ctx['parts']
+    reused = not ctx['fresh']
+    # nested operations are refused
     for i, recs in enumerate(logs):
-        for r in recs:
-            if any(o != 0 for o in r[1]):
-                return ('nested:accepted', f'partition {i} attempt {r[0]}: nested operation outcomes {r[1]} (1 = accepted)')
-        if len(recs) > (maxr if style else 1):
+        if isinstance(recs, list):
+            for r in recs:
+                if any(o != 0 for o in r[1]):
+                    site = 'toLocalIterator:nested-accepted' if cls == 1 else 'nested:accepted'
+                    ops = [NEST_OPS[k][0] for k, _c in parts[i][2]]
+                    return (site, f'{name}: partition {i} call {r[0]}: nested operations {ops} -> outcomes {r[1]} '
+                                  f'(1 = accepted, 0 = refused with ContextIsLockedException)')
+    if cls == 2:
+        return oracle_lazy(maxr, action, ctx, calls, res, logs)
+    # while the lock is not held a nested operation cannot be refused, hence cannot fail the task (the finding
+    # above is reported first); judge the retry clause with what the implementation does
+    held = cls == 0
+    fe = first_exhausted(maxr, parts, calls, held)
+    want_ok = (0, plain_result(ctx, action))
+    if res[0] == 0:
+        if res != want_ok:
+            return (f'runJob:result:{name}', f'expected {want_ok[1]!r}, got {res[1]!r}'
+                                             + (' (dataset reused from an earlier job)' if reused else ''))
+        if fe is not None and not reused:
+            return ('run_task:exception', f'{name}: partition {fe} fails {maxr} times but the action returned {res[1]!r}')
+    else:
+        if res[1] == LOCKED and not any(not c for p in parts for _k, c in p[2]):
+            return ('runJob:locked', f'{name}: ContextIsLockedException, expected {want_ok[1]!r}')
+        if fe is None:
+            return (f'runJob:result:{name}', f'every partition succeeds within {maxr} attempts, expected {want_ok[1]!r}, '
+                                             f'got {res!r}')
+        if not reused:
+            _d, plan, nest = parts[fe]
+            if held and any(not caught for _k, caught in nest):
+                want = (1, LOCKED, ())
+            else:
+                want = (1, plan[calls[fe] + maxr - 1][0], (ctx['origin'], fe, calls[fe] + maxr))
+            if res != want:
+                return ('run_task:exception', f'{name}: partition {fe} fails {maxr} times, expected {want!r}, got {res!r}')
+    # attempt logs: from scratch, exactly the right number of attempts
+    for i, recs in enumerate(logs):
+        if not isinstance(recs, list):
+            if recs != 1:
+                return ('run_task:attempt-log', f'partition {i}: log neither empty nor complete')
+            continue
+        data = apply_ops_plain(ctx['pre'], parts[i][0])
+        q = parts[i] if held else (parts[i][0], parts[i][1], [])
+        nf = n_failing(maxr, q, calls[i])
+        if fe is not None and i > fe and mode == 0:
+            want_n = (0,)
+        elif reused:
+            want_n = (0, min(nf + 1, maxr))        # 0: the partition is served from a persisted dataset
+        else:
+            want_n = (min(nf + 1, maxr),)
+        if len(recs) not in want_n:
+            return ('run_task:attempts', f'{name}: partition {i}: {len(recs)} attempts, expected {want_n} '
+                                         f'(max_retries={maxr}, failing={nf})')
+        for k, r in enumerate(recs):
+            if r[0] != calls[i] + k + 1:
+                return ('run_task:attempt-number', f'partition {i}: call numbers {[x[0] for x in recs]} after {calls[i]} calls')
+            if r[2] != data[:len(r[2])]:
+                return ('run_task:from-scratch', f'partition {i} call {r[0]} saw {r[2]}, not a prefix of {data}')
+            if r[3] == -1 and r[2] != data:
+                return ('run_task:from-scratch', f'partition {i} call {r[0]} succeeded on {r[2]}, partition is {data}')
+        if recs and nf < maxr and recs[-1][3] != -1:
+            return ('run_task:attempts', f'{name}: partition {i}: last attempt did not succeed')
+    return None
+
+
+def oracle_lazy(maxr, action, ctx, calls, res, logs):
+    """take / first / isEmpty: they return the plain result or surface an error; a generator task function that
+    nothing above it materialises is never retried (its first error reaches the caller directly)."""
+    name = ACTION_NAMES[action]
+    parts = ctx['parts']
+    eager = bool(ctx['style']) or any(c in (6, 7, 8, 9) for c in ctx['post'])
+    for i, recs in enumerate(logs):
+        if len(recs) > (maxr if eager else 1):
             return ('lazy-action:retried', f'{name}: partition {i} was attempted {len(recs)} times')
-    want = plain_result(job)
+    want = plain_result(ctx, action)
     if res[0] == 0:
         if isinstance(want, Err) or res[1] != want:
             return (f'lazy-action:result:{name}', f'expected {want!r}, got {res!r}')
@@ -289,65 +605,11 @@ def oracle_lazy(maxr, jidx, job, res, logs):
         if not isinstance(want, Err):
             return (f'lazy-action:result:{name}', f'expected {want!r}, got StopIteration')
         return None
-    if not any(p[1] and p[1][0] is not None for p in parts) and not any(not c for p in parts for _k, c in p[2]):
+    if not any(p[1][c:] and p[1][c] is not None for p, c in zip(parts, calls)) \
+            and not any(not c for p in parts for _k, c in p[2]):
         return (f'lazy-action:result:{name}', f'no attempt fails, expected {want!r}, got {res!r}')
-    if not style and res[1] != LOCKED and res[2][2:] != (1,):
+    if not eager and res[1] != LOCKED and (len(res[2]) != 3 or res[2][2] != calls[res[2][1]] + 1):
         return ('lazy-action:retried', f'{name}: error {res!r} does not come from a first attempt')
-    return None
-
-
-def oracle_job(maxr, mode, jidx, job, res, logs):
-    action, _style, pre, _post, parts = job
-    if action in LAZY:
-        return oracle_lazy(maxr, jidx, job, res, logs)
-    name = ACTION_NAMES[action]
-    fe = first_exhausted(maxr, parts)
-    # nested operations are refused
-    for i, recs in enumerate(logs):
-        if isinstance(recs, list):
-            for r in recs:
-                if any(o != 0 for o in r[1]):
-                    return ('nested:accepted', f'partition {i} attempt {r[0]}: nested operation outcomes {r[1]} (1 = accepted)')
-    # result
-    if fe is None:
-        want = (0, plain_result(job))
-        if res != want:
-            if res[0] == 1 and res[1] == LOCKED:
-                return ('runJob:locked', f'{name}: ContextIsLockedException, expected {want[1]!r}')
-            return (f'runJob:result:{name}', f'every partition succeeds within {maxr} attempts, expected {want[1]!r}, got {res!r}')
-    else:
-        _d, plan, nest = parts[fe]
-        if any(not caught for _k, caught in nest):
-            want = (1, LOCKED, ())
-        else:
-            want = (1, plan[maxr - 1][0], (jidx, fe, maxr))
-        if res != want:
-            if res[0] == 1 and res[1] == LOCKED:
-                return ('runJob:locked', f'{name}: ContextIsLockedException, expected {want!r}')
-            return ('run_task:exception', f'{name}: partition {fe} fails {maxr} times, expected {want!r}, got {res!r}')
-    # attempt logs: from scratch, exactly the right number of attempts
-    for i, recs in enumerate(logs):
-        if not isinstance(recs, list):
-            if recs != 1:
-                return ('run_task:attempt-log', f'partition {i}: log neither empty nor complete')
-            continue
-        data = [PYF[pre](x) for x in parts[i][0]]
-        nf = n_failing(maxr, parts[i])
-        if fe is not None and i > fe and mode == 0:
-            want_n = 0
-        else:
-            want_n = min(nf + 1, maxr)
-        if len(recs) != want_n:
-            return ('run_task:attempts', f'partition {i}: {len(recs)} attempts, expected {want_n} (max_retries={maxr}, failing={nf})')
-        for k, r in enumerate(recs):
-            if r[0] != k + 1:
-                return ('run_task:attempt-number', f'partition {i}: attempt numbers {[x[0] for x in recs]}')
-            if r[2] != data[:len(r[2])]:
-                return ('run_task:from-scratch', f'partition {i} attempt {r[0]} saw {r[2]}, not a prefix of {data}')
-            if r[3] == -1 and r[2] != data:
-                return ('run_task:from-scratch', f'partition {i} attempt {r[0]} succeeded on {r[2]}, partition is {data}')
-        if recs and nf < maxr and recs[-1][3] != -1:
-            return ('run_task:attempts', f'partition {i}: last attempt did not succeed')
     return None
 
 
@@ -360,9 +622,11 @@ def kind(case):
     maxr, mode, jobs = case
     fe = [first_exhausted(maxr, j[4]) is not None for j in jobs]
     nest = any(p[2] for j in jobs for p in j[4])
-    lazy = any(j[0] in LAZY for j in jobs)
+    cls = {ACTIONS[j[0]][1] for j in jobs}
     return (f"{['local', 'pool-barrier', 'pool-free'][mode]}/{'fail' if any(fe) else 'ok'}"
-            f"{'/nested' if nest else ''}{'/lazy-action' if lazy else ''}")
+            f"{'/nested' if nest else ''}{'/lazy-action' if 2 in cls else ''}{'/after-lock' if 1 in cls else ''}"
+            f"{'/persist' if any(c in PERSIST_OPS for j in jobs for c in j[3]) else ''}"
+            f"{'/reuse' if any(j[5] for j in jobs) else ''}")
 
 
 # ------------------------------------------------------------------ generation
@@ -376,31 +640,101 @@ def gen_fault(rng):
     return (rng.randrange(3), rng.randrange(3))
 
 
+def gen_ops(rng, above, lazy=False):
+    """A short list of lineage ops; persist/cache is favoured above the injected stage."""
+    n = rng.choice([0, 0, 1, 1, 2, 3])
+    pool = LENGTH_PRESERVING if lazy else OP_CODES
+    ops = [rng.choice(pool) for _ in range(n)]
+    if above and rng.random() < 0.3:
+        ops.insert(rng.randint(0, len(ops)), rng.choice(PERSIST_OPS))
+    return ops
+
+
+def valid(case):
+    """The generator restrictions (ASSUMPTIONS) -- shrinking must not leave them."""
+    maxr, mode, jobs = case
+    if not (1 <= maxr and mode in (0, 1, 2) and jobs):
+        return False
+    ctxs = resolve(jobs)
+    failed = {}
+    for jidx, (job, ctx) in enumerate(zip(jobs, ctxs)):
+        action, _style, pre, post, parts, reuse = job
+        cls = ACTIONS[action][1]
+        if reuse:
+            if jidx == 0 or mode == 1 or (mode == 2 and failed.get(ctx['origin'])):
+                return False
+            if ctx['fresh']:
+                return False
+        elif not parts:
+            return False
+        if any(c not in OPS for c in list(pre) + list(post)):
+            return False
+        if mode and ACTION_NAMES[action] == 'saveAsTextFile':
+            return False
+        flat = [x for p in plain_parts(ctx) for x in p]
+        if cls != 2 and ACTIONS[action][2] in NEEDS_DATA_KINDS and not flat:
+            return False
+        if ACTION_NAMES[action] in ('reduce', 'treeReduce', 'reduce-max') and not flat:
+            return False
+        if cls == 2 and any(c in (4, 5) for c in ctx['post']):
+            return False
+        ps = ctx['parts']
+        if mode and cls == 1 and any(p[2] for p in ps):
+            return False
+        if mode and cls == 0:
+            fe = first_exhausted(maxr, ps)
+            if fe is not None and any(p[2] for p in ps[fe + 1:]):
+                return False
+        if first_exhausted(maxr, ps) is not None or reuse:
+            # conservative: once a dataset had an exhausting partition (or was reused) treat it as "failed" for mode 2
+            failed[ctx['origin']] = failed.get(ctx['origin']) or first_exhausted(maxr, ps) is not None
+    return True
+
+
 def fix_job(rng, maxr, mode, job):
-    """Enforce the generator restrictions (ASSUMPTIONS): data for reduce, no racy nested operations."""
-    action, style, pre, post, parts = job
+    """Enforce the generator restrictions on a fresh job."""
+    action, style, pre, post, parts, reuse = job
     parts = [list(p) for p in parts]
-    if action in NEEDS_DATA and not any(p[0] for p in parts):
-        parts[0][0] = gen_data(rng, 2)
-    if mode:
+    if mode and ACTION_NAMES[action] == 'saveAsTextFile':
+        action = 0       # concurrent tasks race in Local.dump's directory creation (FileExistsError, then retried)
+    cls = ACTIONS[action][1]
+    if cls == 2:
+        post = [c for c in post if c not in (4, 5)]
+    if mode and cls == 1:
+        for p in parts:
+            p[2] = []
+    if mode and cls == 0:
         fe = first_exhausted(maxr, [tuple(p) for p in parts])
         if fe is not None:
             for i in range(fe + 1, len(parts)):
                 parts[i][2] = []
-    return (action, style, pre, post, [tuple(p) for p in parts])
+    job = (action, style, list(pre), list(post), [tuple(p) for p in parts], reuse)
+    ctx = resolve([job])[0]
+    if not [x for p in plain_parts(ctx) for x in p] and (
+            ACTIONS[action][2] in NEEDS_DATA_KINDS or ACTION_NAMES[action] in ('reduce', 'treeReduce', 'reduce-max')):
+        job = (0,) + job[1:]
+    return job
 
 
 def simple_job(rng):
     n = rng.randint(1, 3)
-    return (rng.randrange(N_ACTIONS), rng.randrange(2), rng.randrange(4), rng.randrange(4),
-            [(gen_data(rng, rng.randint(1, 3)), [], []) for _ in range(n)])
+    return fix_job(rng, 1, 0, (rng.choice(LOCKED_STRICT[:9]), rng.randrange(2), gen_ops(rng, False)[:1], gen_ops(rng, True)[:1],
+                               [(gen_data(rng, rng.randint(1, 3)), [], []) for _ in range(n)], 0))
 
 
-NESTS = [[], [(0, 0)], [(1, 0)], [(0, 1)], [(1, 1)], [(1, 1), (0, 1)], [(1, 1), (0, 0)], [(0, 1), (1, 0)], [(0, 1), (0, 1), (1, 1)]]
+def gen_nest(rng):
+    k = rng.choice([1, 1, 2, 2, 3])
+    nest = [(rng.choice(NEST_CODES), 1) for _ in range(k)]
+    if rng.random() < 0.35:
+        nest[-1] = (nest[-1][0], 0)
+    return nest
 
 
-def random_job(rng, maxr, mode, nest_p=0.25):
+def random_job(rng, maxr, mode, nest_p=0.25, action=None):
     n = rng.randint(1, 4)
+    if action is None:
+        action = rng.choice(STRICT) if rng.random() < 0.85 else rng.choice(LAZY)
+    lazy = ACTIONS[action][1] == 2
     parts = []
     for _ in range(n):
         nf = rng.choice([0, 0, 0, 1, 1, 2, maxr - 1, maxr, maxr + 1])
@@ -408,10 +742,26 @@ def random_job(rng, maxr, mode, nest_p=0.25):
         plan = [gen_fault(rng) for _ in range(nf)]
         if rng.random() < 0.15:
             plan = plan + [None] + [gen_fault(rng) for _ in range(rng.randint(0, 2))]
-        nest = list(rng.choice(NESTS[1:])) if rng.random() < nest_p else []
+        nest = gen_nest(rng) if rng.random() < nest_p else []
         parts.append((gen_data(rng), plan, nest))
-    job = (rng.randrange(N_ACTIONS), rng.randrange(2), rng.randrange(4), rng.randrange(4), parts)
+    job = (action, rng.randrange(2), gen_ops(rng, False, lazy), gen_ops(rng, True, lazy), parts, 0)
     return fix_job(rng, maxr, mode, job)
+
+
+def reuse_job(rng, lazy_ok=True):
+    action = rng.choice(STRICT if not lazy_ok or rng.random() < 0.85 else LAZY)
+    lazy = ACTIONS[action][1] == 2
+    return (action, 0, [], [c for c in gen_ops(rng, True, True)][:2] if lazy else gen_ops(rng, True)[:2], [], 1)
+
+
+def with_followups(rng, maxr, mode, job):
+    """job, then a job on the same dataset object (where the executor allows it), then a fresh job."""
+    jobs = [job]
+    if mode == 0 or (mode == 2 and first_exhausted(maxr, job[4]) is None):
+        jobs.append(reuse_job(rng))
+    jobs.append(simple_job(rng))
+    case = (maxr, mode, jobs)
+    return case if valid(case) else (maxr, mode, [job, simple_job(rng)])
 
 
 def corpus():
@@ -426,17 +776,18 @@ def corpus():
 def generate(rng, tier):
     quick = tier == 'quick'
     cases = corpus()
-    # 1. exhaustive over the number of failing attempts per partition, every executor, followed by a fresh job
+    # 1. exhaustive over the number of failing attempts per partition, every executor, followed by a job on the
+    #    same dataset and a fresh job
     for maxr in (1, 2, 3, 4):
         for n in (1, 2, 3):
             for nfs in itertools.product(range(maxr + 1), repeat=n):
                 for mode in (0, 1, 2):
-                    if quick and maxr == 4 and n == 3 and rng.random() < 0.6:
+                    if quick and n == 3 and rng.random() < (0.8 if maxr == 4 else 0.5 if maxr == 3 else 0.0):
                         continue
                     parts = [(gen_data(rng), [gen_fault(rng) for _ in range(nf)], []) for nf in nfs]
-                    job = fix_job(rng, maxr, mode, (rng.randrange(N_ACTIONS), rng.randrange(2), rng.randrange(4),
-                                                    rng.randrange(4), parts))
-                    cases.append((maxr, mode, [job, simple_job(rng)]))
+                    job = fix_job(rng, maxr, mode, (rng.choice(STRICT), rng.randrange(2), gen_ops(rng, False),
+                                                    gen_ops(rng, True), parts, 0))
+                    cases.append(with_followups(rng, maxr, mode, job))
     # 2. every position x exception class x style on the exhausting attempt, one partition
     for maxr in (1, 2, 3):
         for pos in range(3):
@@ -444,45 +795,72 @@ def generate(rng, tier):
                 for style in range(2):
                     for mode in (0, 1):
                         plan = [gen_fault(rng) for _ in range(maxr - 1)] + [(exc, pos)]
-                        job = (rng.randrange(N_ACTIONS), style, 0, rng.randrange(4), [(gen_data(rng, 3), plan, [])])
-                        cases.append((maxr, mode, [fix_job(rng, maxr, mode, job), simple_job(rng)]))
-    # 3. nested operations: every pattern, in the first / a later partition, with and without faults
-    for maxr in (1, 2, 3):
-        for nest in NESTS[1:]:
-            for mode in (0, 1, 2):
-                for where in (0, 1):
-                    parts = [(gen_data(rng, 2), [gen_fault(rng) for _ in range(rng.randint(0, maxr - 1))], []) for _ in range(2)]
-                    parts[where] = (parts[where][0], parts[where][1], list(nest))
-                    job = fix_job(rng, maxr, mode, (rng.randrange(N_ACTIONS), rng.randrange(2), 0, 0, parts))
-                    cases.append((maxr, mode, [job, simple_job(rng)]))
-    # 4. every action through a permanent failure and a recovered failure
-    for action in range(N_ACTIONS):
-        for mode in (0, 1):
+                        job = (rng.choice(STRICT), style, [], gen_ops(rng, True), [(gen_data(rng, 3), plan, [])], 0)
+                        cases.append(with_followups(rng, maxr, mode, fix_job(rng, maxr, mode, job)))
+    # 3. nested operations: every kind of dataset creation and action, caught and escaping, in the first / a later
+    #    partition, under every class of job
+    for code in NEST_CODES:
+        for caught in (1, 0):
+            for where in (0, 1):
+                maxr = rng.randint(1, 3)
+                mode = rng.choice([0, 0, 1, 2])
+                parts = [(gen_data(rng, 2), [gen_fault(rng) for _ in range(rng.randint(0, maxr - 1))], []) for _ in range(2)]
+                nest = [(rng.choice(NEST_CODES), 1)] * rng.randint(0, 1) + [(code, caught)]
+                parts[where] = (parts[where][0], parts[where][1], nest)
+                job = fix_job(rng, maxr, mode, (rng.choice(LOCKED_STRICT + LAZY[1:3]), rng.randrange(2), [], [], parts, 0))
+                cases.append(with_followups(rng, maxr, mode, job))
+    for action in UNLOCKED:      # tasks that run after runJob has returned (local only: see ASSUMPTIONS)
+        for _ in range(1 if quick else 4):
+            maxr = rng.randint(1, 3)
+            parts = [(gen_data(rng, 2), [gen_fault(rng) for _ in range(rng.randint(0, maxr - 1))], gen_nest(rng)) for _ in range(2)]
+            cases.append(with_followups(rng, maxr, 0, fix_job(rng, maxr, 0, (action, rng.randrange(2), [], [], parts, 0))))
+    # 4. every job-triggering method through a permanent and a recovered failure, before/mid/after, both styles
+    for action in STRICT:
+        for mode in (0, 1, 2) if not quick else (0, rng.choice([1, 2])):
             for nf in (1, 2):
                 parts = [(gen_data(rng, 3), [], []), (gen_data(rng, 2), [gen_fault(rng) for _ in range(nf)], [])]
-                cases.append((2, mode, [fix_job(rng, 2, mode, (action, rng.randrange(2), 1, 2, parts)), simple_job(rng)]))
-    # 5. lazily evaluated actions (take(n), first, isEmpty): generator and eager task functions, faults in
-    #    the first attempt of the first / a later partition, on every executor, followed by a fresh job
+                job = fix_job(rng, 2, mode, (action, rng.randrange(2), gen_ops(rng, False)[:1], gen_ops(rng, True)[:1], parts, 0))
+                cases.append(with_followups(rng, 2, mode, job))
+    # 5. persisted datasets above the injected stage: a fault on an attempt that is retried, every position, then
+    #    a second job on the persisted dataset
+    for op in PERSIST_OPS:
+        for pos in range(3):
+            for style in range(2):
+                for mode in (0, 2):
+                    for maxr in (2, 3):
+                        below, above = gen_ops(rng, True)[:1], gen_ops(rng, True)[:1]
+                        parts = [(gen_data(rng, 3), [], []), (gen_data(rng, 4), [(rng.randrange(3), pos)], []),
+                                 (gen_data(rng, 2), [gen_fault(rng) for _ in range(rng.choice([0, maxr]))], [])]
+                        job = fix_job(rng, maxr, mode, (rng.choice(STRICT), style, gen_ops(rng, False), below + [op] + above, parts, 0))
+                        cases.append(with_followups(rng, maxr, mode, job))
+    # 6. lazily evaluated actions (take(n), first, isEmpty)
     for action in LAZY:
         for style in (0, 1):
             for mode in (0, 1, 2):
-                for _ in range(2 if quick else 8):
+                for _ in range(1 if quick else 6):
                     maxr = rng.randint(1, 3)
                     parts = []
                     for _i in range(rng.randint(1, 3)):
                         plan = [gen_fault(rng) for _ in range(rng.choice([0, 0, 1, 1, maxr, maxr + 1]))]
-                        nest = list(rng.choice(NESTS[1:])) if rng.random() < 0.2 else []
+                        nest = gen_nest(rng) if rng.random() < 0.2 else []
                         parts.append((gen_data(rng), plan, nest))
-                    cases.append((maxr, mode, [(action, style, rng.randrange(4), rng.randrange(4), parts), simple_job(rng)]))
-    # 6. random job sequences
-    for _ in range(800 if quick else 15000):
+                    job = fix_job(rng, maxr, mode, (action, style, gen_ops(rng, False, True), gen_ops(rng, True, True), parts, 0))
+                    cases.append(with_followups(rng, maxr, mode, job))
+    # 7. random job sequences
+    for _ in range(500 if quick else 12000):
         maxr = rng.choice([1, 2, 3, 4, 1, 2, 3, 4, 1, 2, 3, 4, 5, 6])
         mode = rng.choice([0, 0, 1, 2])
-        jobs = [random_job(rng, maxr, mode) for _ in range(rng.choice([1, 2, 2, 3]))]
-        if rng.random() < 0.2:
-            k = rng.randrange(len(jobs))
-            jobs[k] = (rng.choice(LAZY),) + jobs[k][1:]
-        cases.append((maxr, mode, jobs))
+        jobs = []
+        for _k in range(rng.choice([1, 2, 2, 3])):
+            if jobs and rng.random() < 0.35:
+                cand = jobs + [reuse_job(rng)]
+                if valid((maxr, mode, cand)):
+                    jobs = cand
+                    continue
+            jobs.append(random_job(rng, maxr, mode))
+        case = (maxr, mode, jobs)
+        if valid(case):
+            cases.append(case)
     return cases
 
 
@@ -491,33 +869,32 @@ def generate(rng, tier):
 PROC_STATS = {'process_pool_cases': 0, 'process_pool_failing_jobs': 0, 'process_pool_nested': 0}
 
 
-def run_job_procs(sc, workdir, tag, jidx, job):
-    """Like run_job, for a pool of worker PROCESSES: the task function (a closure holding the context, pickled
-    with cloudpickle while the job lock is held) keeps its attempt log in one file per partition."""
-    action, style, pre, post, parts = job
-    holder = {}
+class ProcDataset(Dataset):
+    """For a pool of worker PROCESSES: the task function (holding the context, pickled with cloudpickle while
+    the job lock is held) keeps its attempt log in one file per partition."""
 
-    def path(idx):
-        return os.path.join(workdir, f'proc_{tag}_{jidx}_{idx}.log')
+    def __init__(self, sc, maxr, jidx, job, workdir, tag):
+        super().__init__(sc, maxr, 1, jidx, job)
+        self.workdir, self.tag = workdir, tag
 
-    def body(idx, it):
-        _data, plan, nest = parts[idx]
+    def path(self, idx):
+        return os.path.join(self.workdir, f'proc_{self.tag}_{self.jidx}_{idx}.log')
+
+    def body(self, idx, it):
+        _data, plan, nest = self.parts[idx]
         try:
-            with open(path(idx)) as f:
+            with open(self.path(idx)) as f:
                 a = len(f.readlines()) + 1
         except FileNotFoundError:
             a = 1
         rec = [a, [], [], None]
 
         def done():
-            with open(path(idx), 'a') as f:
+            with open(self.path(idx), 'a') as f:
                 f.write(json.dumps(rec) + '\n')
         for nkind, caught in nest:
             try:
-                if nkind == 0:
-                    sc.parallelize([7, 8, 9], 2)
-                else:
-                    holder['other'].count()
+                NEST_OPS[nkind][1](self.sc, self.other, self.otherkv)
                 rec[1].append(1)
             except ContextIsLockedException:
                 rec[1].append(0)
@@ -535,7 +912,7 @@ def run_job_procs(sc, workdir, tag, jidx, job):
             done()
             return
         exc, pos = f
-        size = len(parts[idx][0])
+        size = len(apply_ops_plain(self.pre, self.parts[idx][0]))
         k = 0 if pos == 0 else size // 2 if pos == 1 else size
         for _ in range(k):
             x = next(it)
@@ -543,31 +920,23 @@ def run_job_procs(sc, workdir, tag, jidx, job):
             yield x
         rec[3] = exc
         done()
-        raise EXC[exc](jidx, idx, a)
+        raise EXC[exc](self.jidx, idx, a)
 
-    def eager(idx, it):
-        return list(body(idx, it))
+    def read_logs(self):
+        logs = []
+        for idx in range(len(self.parts)):
+            try:
+                with open(self.path(idx)) as f:
+                    logs.append([tuple(json.loads(line)) for line in f])
+            except FileNotFoundError:
+                logs.append([])
+        return logs
 
-    try:
-        holder['other'] = sc._parallelize_partitions([[1, 2], [3]])  # pylint: disable=protected-access
-        rdd = sc._parallelize_partitions([list(p[0]) for p in parts])  # pylint: disable=protected-access
-        if pre:
-            rdd = rdd.map(FUNCS[pre])
-        rdd = rdd.mapPartitionsWithIndex(eager if style else body)
-        if post:
-            rdd = rdd.map(FUNCS[post])
-        res = (0, do_action(action, rdd))
-    except Exception as e:  # pylint: disable=broad-except
-        args = e.args if all(isinstance(x, int) for x in e.args) else (repr(e.args),)
-        res = (1, exc_code(e), tuple(args))
-    logs = []
-    for idx in range(len(parts)):
-        try:
-            with open(path(idx)) as f:
-                logs.append([tuple(json.loads(line)) for line in f])
-        except FileNotFoundError:
-            logs.append([])
-    return res, logs
+
+# (aggregateByKey returns a defaultdict with a local lambda from its tasks: not picklable, fails on worker processes
+# without any fault -- a backend defect, not a retry defect)
+PROC_ACTIONS = [i for i in LOCKED_STRICT if ACTION_NAMES[i] not in ('saveAsTextFile', 'aggregateByKey')]
+PROC_NEST = [c for c in NEST_CODES if c in (0, 1, 2, 7, 8, 11, 13, 14, 40, 41, 42, 44)]
 
 
 def extra_checks(rng, tier, workdir):
@@ -577,28 +946,38 @@ def extra_checks(rng, tier, workdir):
     import pickle
 
     import cloudpickle
-    n = 150 if tier == 'quick' else 1500
+    n = 100 if tier == 'quick' else 1000
     mp = multiprocessing.get_context('fork')
     with mp.Pool(3) as pool:
         for k in range(n):
             maxr = rng.randint(1, 3)
             jobs = []
             for _ in range(2):
-                job = random_job(rng, maxr, 0, nest_p=0.3)
-                action, style, pre, post, parts = job
+                job = random_job(rng, maxr, 0, nest_p=0.3, action=rng.choice(PROC_ACTIONS))
+                action, style, pre, post, parts, _reuse = job
                 seen = False
                 fixed = []
                 for data, plan, nest in parts:
+                    nest = [(rng.choice(PROC_NEST), c) for _k, c in nest]
                     if n_failing(maxr, (data, plan, nest)) >= maxr:
                         if seen:
                             plan, nest = [], [x for x in nest if x[1]]
                         seen = True
                     fixed.append((data, plan, nest))
-                jobs.append((action, style, pre, post, fixed))
+                jobs.append(fix_job(rng, maxr, 0, (action, style, pre, post, fixed, 0)))
             jobs.append(simple_job(rng))
             case = (maxr, 1, jobs)
             sc = pysparkling.Context(pool=pool, serializer=cloudpickle.dumps, deserializer=pickle.loads, max_retries=maxr)
-            result = [run_job_procs(sc, workdir, k, jidx, job) for jidx, job in enumerate(jobs)]
+            result = []
+            for jidx, job in enumerate(jobs):
+                ds = ProcDataset(sc, maxr, jidx, job, workdir, k)
+                try:
+                    ds.build()
+                    res = (0, ACTIONS[job[0]][3](ds.rdd, sc))
+                except Exception as e:  # pylint: disable=broad-except
+                    args = e.args if all(isinstance(x, int) for x in e.args) else (repr(e.args),)
+                    res = (1, exc_code(e), tuple(args))
+                result.append((res, ds.read_logs()))
             PROC_STATS['process_pool_cases'] += 1
             PROC_STATS['process_pool_failing_jobs'] += sum(1 for r, _l in result if r[0] == 1)
             PROC_STATS['process_pool_nested'] += sum(1 for j in jobs for p in j[4] if p[2])
@@ -608,25 +987,10 @@ def extra_checks(rng, tier, workdir):
 
 
 def extra_evidence():
-    return dict(PROC_STATS)
+    return dict(PROC_STATS, actions=len(ACTIONS), nested_operation_kinds=len(NEST_OPS), lineage_ops=len(OPS))
 
 
-def valid(case):
-    """The generator restrictions (ASSUMPTIONS) -- shrinking must not leave them."""
-    maxr, mode, jobs = case
-    if not (1 <= maxr and mode in (0, 1, 2) and jobs):
-        return False
-    for action, _style, _pre, _post, parts in jobs:
-        if not parts:
-            return False
-        if action in NEEDS_DATA and not any(p[0] for p in parts):
-            return False
-        if mode and action not in LAZY:
-            fe = first_exhausted(maxr, parts)
-            if fe is not None and any(p[2] for p in parts[fe + 1:]):
-                return False
-    return True
-
+# ------------------------------------------------------------------ shrinking
 
 def shrink_candidates(case):
     for c in _shrink_candidates(case):
@@ -638,26 +1002,26 @@ def _shrink_candidates(case):
     maxr, mode, jobs = case
     if len(jobs) > 1:
         for i in range(len(jobs)):
-            yield (maxr, mode, jobs[:i] + jobs[i + 1:])
+            rest = jobs[:i] + jobs[i + 1:]
+            yield (maxr, mode, rest)
     for ji, job in enumerate(jobs):
-        action, style, pre, post, parts = job
+        action, style, pre, post, parts, reuse = job
 
         def rebuilt(new_job, ji=ji):
             return (maxr, mode, jobs[:ji] + [new_job] + jobs[ji + 1:])
         if len(parts) > 1:
             for i in range(len(parts)):
-                ps = parts[:i] + parts[i + 1:]
-                if action in NEEDS_DATA and not any(p[0] for p in ps):
-                    continue
-                yield rebuilt((action, style, pre, post, ps))
-        if pre or post:
-            yield rebuilt((action, style, 0, 0, parts))
+                yield rebuilt((action, style, pre, post, parts[:i] + parts[i + 1:], reuse))
+        for i in range(len(pre)):
+            yield rebuilt((action, style, pre[:i] + pre[i + 1:], post, parts, reuse))
+        for i in range(len(post)):
+            yield rebuilt((action, style, pre, post[:i] + post[i + 1:], parts, reuse))
         if action != 0:
-            yield rebuilt((0, style, pre, post, parts))
+            yield rebuilt((0, style, pre, post, parts, reuse))
         for i, (data, plan, nest) in enumerate(parts):
-            if nest:
-                yield rebuilt((action, style, pre, post, parts[:i] + [(data, plan, nest[:-1])] + parts[i + 1:]))
-            if len(data) > 1 and not (action in NEEDS_DATA):
-                yield rebuilt((action, style, pre, post, parts[:i] + [(data[:-1], plan, nest)] + parts[i + 1:]))
+            for k in range(len(nest)):
+                yield rebuilt((action, style, pre, post, parts[:i] + [(data, plan, nest[:k] + nest[k + 1:])] + parts[i + 1:], reuse))
+            if len(data) > 1:
+                yield rebuilt((action, style, pre, post, parts[:i] + [(data[:-1], plan, nest)] + parts[i + 1:], reuse))
     if mode:
         yield (maxr, 0, jobs)
